@@ -3,6 +3,7 @@ package main
 import (
 	"fmt"
 	"os"
+	"sort"
 	"time"
 
 	eng "verif.local/engine"
@@ -21,6 +22,9 @@ func l1probe() {
 		{ID: "a", Deps: [][]int{{}}, N: 1, Outcomes: []int{eng.OutOK, eng.OutErr}},
 		{ID: "b", Deps: [][]int{{}, {0}}, N: 1, Outcomes: []int{eng.OutOK, eng.OutErr}},
 		{ID: "c", Deps: [][]int{{}, {0}, {0, 1}}, N: 2, Outcomes: []int{eng.OutOK, eng.OutErr}},
+		{ID: "d", Deps: [][]int{{}, {}, {}, {}}, N: 2, Outcomes: []int{eng.OutOK, eng.OutErr}},
+		{ID: "e", Deps: [][]int{{}, {}}, N: 1, Emitter: true, Ticks: 2, Outcomes: []int{eng.OutOK}},
+		{ID: "f", Deps: [][]int{{}, {}, {}}, N: 2, Outcomes: []int{eng.OutOK, eng.OutErr}},
 	}
 	t0 := time.Now()
 	src := eng.HarnessSource(cubes)
@@ -31,6 +35,9 @@ func l1probe() {
 	}
 	fmt.Println("loaded in", time.Since(t0))
 	for _, c := range cubes {
+		if only := os.Getenv("ONLY"); only != "" && only != c.ID {
+			continue
+		}
 		runCube(P, c)
 	}
 }
@@ -47,10 +54,32 @@ func runCube(P *eng.Program, c *eng.Cube) {
 	}()
 	t0 := time.Now()
 	l := eng.NewL1(P, c)
+	if os.Getenv("PROFILE") != "" {
+		l.E.Profile = map[string]int{}
+		l.E.ProfileN = map[string]int{}
+	}
 	l.Build()
+	if l.E.Profile != nil {
+		type kv struct {
+			k string
+			v int
+		}
+		var kvs []kv
+		for k, v := range l.E.Profile {
+			kvs = append(kvs, kv{k, v})
+		}
+		sort.Slice(kvs, func(i, j int) bool { return kvs[i].v > kvs[j].v })
+		for i := 0; i < 30 && i < len(kvs); i++ {
+			fmt.Printf("   %7d terms %5d execs  %s\n", kvs[i].v, l.E.ProfileN[kvs[i].k], kvs[i].k)
+		}
+	}
 	fmt.Printf("cube %s: built in %v, terms=%d procs=%d paths=%d instr=%d\n", c, time.Since(t0), l.E.B.NumTerms(), len(l.S.Procs), l.S.TotalPaths, l.S.TotalInstr)
-	fmt.Print(l.S.DescribeConfigs())
-	sv, err := eng.NewSolver(l.E.B, "z3-new", 120000)
+	fmt.Println("phase counts:", l.E.B.PhaseCount)
+	fmt.Println("op counts:", l.E.B.OpCounts())
+	if os.Getenv("NOSOLVE") != "" {
+		return
+	}
+	sv, err := eng.NewSolver(l.E.B, "z3-new", 1200000)
 	if err != nil {
 		panic(err)
 	}
@@ -60,7 +89,22 @@ func runCube(P *eng.Program, c *eng.Cube) {
 		defer w.Close()
 	}
 	defer sv.Close()
+	if os.Getenv("COMBINED") != "" {
+		t1 := time.Now()
+		any := l.E.B.False
+		for _, ob := range l.Obligations() {
+			if !ob.WantSat {
+				any = l.E.B.Or(any, ob.Assert)
+			}
+		}
+		v, _, err := sv.Check(append([]*eng.Term{any}, l.S.Constraints...), nil)
+		fmt.Printf("  COMBINED %s %v err=%v\n", v, time.Since(t1), err)
+		return
+	}
 	for _, ob := range l.Obligations() {
+		if op := os.Getenv("ONLYPROP"); op != "" && op != ob.Prop {
+			continue
+		}
 		t1 := time.Now()
 		as := append([]*eng.Term{ob.Assert}, l.S.Constraints...)
 		v, model, err := sv.Check(as, l.ModelTerms())
